@@ -474,7 +474,35 @@ def r7_merge_precedence(ctx, cfg):
               eqs[0].loc(), sample={"loop": nx.loc(), "eq": [e.loc() for e in eqs]})
 
 
+def r8_persist_every_bucket(ctx, cfg):
+    """save_all / flush_all_updates walk all buckets and persist EACH one: an in-memory bucket can differ from its file without having
+    pending updates (clear_bucket, clear, a flush that merged them), so 'nothing pending' is not 'unchanged'"""
+    from .c12 import every_iteration
+    rule = "C05.R8"
+    ctx.rule(rule, "IndexManager::save_all / flush_all_updates: the per-bucket save / flush call lies on every iteration path of the loop over the buckets")
+    n = 0
+    for item, pat in (("save_all", r"IndexManager::save_index$"), ("flush_all_updates", r"IndexManager::flush_updates_for_bucket$")):
+        b = find_method(ctx, rule, "IndexManager", item)
+        if not b:
+            continue
+        ctx.saw(b)
+        calls = b.calls_matching(pat)
+        nxs = [c for c in b.calls if re.search(r"\bIterator>?::next$", c.orig_name or c.name)]
+        if not (ctx.anchor(rule, calls, "per-bucket call in %s" % item) and ctx.anchor(rule, nxs, "loop over the buckets in %s" % item)):
+            continue
+        c = calls[0]
+        loops = [nx for nx in nxs if c.bb in b.reachable(b.succ[nx.bb]) and nx.bb in b.reachable(b.succ[c.bb])]
+        if not ctx.anchor(rule, loops, "per-bucket call inside the loop in %s" % item):
+            continue
+        n += 1
+        ctx.check(every_iteration(b, loops[0], c.bb), rule, [b.id, "every-bucket"], "every bucket is persisted",
+                  "%s skips some buckets (a `continue` in front of the per-bucket call): a bucket whose in-memory state changed without pending updates - "
+                  "cleared, or just merged - keeps its old file, and after a reload the removed keys are back" % item, c.loc())
+    ctx.floor(rule, n, 2, "bucket-walking persistence loops")
+
+
 def run(ctx, cfg=CFG):
+    r8_persist_every_bucket(ctx, cfg)
     r7_merge_precedence(ctx, cfg)
     r1_append_consumed(ctx, cfg)
     r2_flush_retry(ctx, cfg)
